@@ -220,6 +220,8 @@ FORCED = [
     ("ForcedNestedOption", DERIVE + "\npub struct ForcedNestedOption {\n    pub a: Option<Vec<Option<u8>>>,\n    #[serde(default, skip_serializing_if = \"Vec::is_empty\")]\n    pub b: Vec<(String,)>,\n    pub c: [Option<bool>; 2],\n}\n", "struct"),
     ("ForcedInternalNewtype", DERIVE + "\n#[serde(tag = \"kind\", deny_unknown_fields)]\npub enum ForcedInternalNewtype {\n    A { x: u8 },\n    B,\n    #[serde(rename = \"see\")]\n    C { #[serde(default)] y: Option<String> },\n}\n", "enum_internal"),
     ("ForcedTupleStructs", DERIVE + "\npub struct ForcedTupleStructs(pub (u8,), pub Box<ForcedUnit>, pub Option<Box<ForcedTupleStructs>>);\n" + DERIVE + "\npub struct ForcedUnit;\n", "tuple_struct"),
+    ("ForcedInternalOneMember", DERIVE + "\n#[serde(tag = \"kind\")]\npub enum ForcedInternalOneMember {\n    Point,\n    Label { text: Option<String> },\n    Note { #[serde(default)] text: String },\n}\n", "enum_internal"),
+    ("ForcedInternalSameMember", DERIVE + "\n#[serde(tag = \"t\", rename_all = \"snake_case\")]\npub enum ForcedInternalSameMember {\n    A { value: u8 },\n    B { value: Option<u8> },\n    CUnit,\n}\n", "enum_internal"),
     ("ForcedFloatMaps", DERIVE + "\n#[serde(rename_all = \"SCREAMING-KEBAB-CASE\")]\npub struct ForcedFloatMaps {\n    pub float_map: ::std::collections::HashMap<String, f32>,\n    pub set_of: ::std::collections::BTreeSet<i64>,\n    #[serde(rename = \"type\")]\n    pub type_: u64,\n}\n", "struct"),
 ]
 
